@@ -28,6 +28,8 @@ structure CallerObs where
   started   : List Nat     -- job function invocations, in order
   atReturn  : Option Nat   -- number of `resFunc` calls made when `RunJobs` returned
   late      : Nat          -- `resFunc` calls after `RunJobs` returned
+  panicked  : List Nat := []      -- job indices whose job function panicked
+  errDelivered : List Nat := []   -- identified results that are the error result of a recovered panic
 deriving DecidableEq, Repr, Inhabited
 
 structure Obs where
@@ -59,7 +61,10 @@ def callerChecks (cs : Case) (c : CallerObs) : List (Bool × String) :=
       "a result was delivered after RunJobs returned"),
     (!cs.quiet || (decide (c.delivered.length = c.jobs) && decide (c.anon = 0)),
       "without stop or cancellation not every job was run and delivered"),
-    (!cs.noStop || decide (c.anon = 0), "a job was skipped although the group was not stopped") ]
+    (!cs.noStop || decide (c.anon = 0), "a job was skipped although the group was not stopped"),
+    (c.panicked.all (fun i => c.errDelivered.contains i) && c.errDelivered.all (fun i => c.panicked.contains i) &&
+      c.errDelivered.all (fun i => c.delivered.contains i),
+      "a panicking job's error result was not delivered (or a panic result came from a job that did not panic)") ]
 
 def globalChecks (cs : Case) (o : Obs) : List (Bool × String) :=
   [ (!o.crashed, "the run crashed"),
@@ -101,7 +106,9 @@ def observeCaller (cfg : Cfg) (s : State) (g : Nat) : CallerObs :=
     anon := (del.filter (fun j => !s.started.contains j)).length,
     started := ((s.started.filter (isGrp g)).map (·.idx)),
     atReturn := some del.length,
-    late := 0 }
+    late := 0,
+    panicked := ((s.started.filter (isGrp g)).filter cfg.panics).map (·.idx),
+    errDelivered := ((del.filter (fun j => s.started.contains j)).filter cfg.panics).map (·.idx) }
 
 def observe (cfg : Cfg) (s : State) (maxConc : Nat) : Obs :=
   { callers := (List.range cfg.ncallers).map (observeCaller cfg s),
